@@ -142,7 +142,7 @@ def isStringField : FieldDecl → Bool
 
 /-- `MapMapper.to_schema`: `patternProperties: {<key pattern>: <value schema>}` when the key field
     is constrained, `additionalProperties: <value schema>` otherwise; the sizes are emitted as
-    `maxItems` / `minItems` -/
+    `maxProperties` / `minProperties` -/
 def mapKws (key : Option FieldDecl) (valSchema : Option PyVal) (sz : SizeOpts) : List (PyVal × PyVal) :=
   [kw "type" (.str "object")]
   ++ (match key, valSchema with
@@ -150,13 +150,20 @@ def mapKws (key : Option FieldDecl) (valSchema : Option PyVal) (sz : SizeOpts) :
         if mapKeyPattern k != "" then [kw "patternProperties" (.dict [kw (mapKeyPattern k) vs])]
         else [kw "additionalProperties" vs]
       | _, _ => [])
-  ++ optKw "maxItems" (sz.max.map natJ)
-  ++ optKw "minItems" (sz.min.map natJ)
+  ++ optKw "maxProperties" (sz.max.map natJ)
+  ++ optKw "minProperties" (sz.min.map natJ)
 
-/-- `EnumMapper.to_schema.adjust` raises TypeError unless the literal is an int, str or float -/
-def enumValOk : PyVal → Bool
+/-- an enum literal that is a JSON scalar other than null: an int, str or float (`True` / `False` are
+    ints) -/
+def enumScalar : PyVal → Bool
   | .str _ | .int _ | .float _ | .bool _ => true
   | _ => false
+
+/-- `EnumMapper.to_schema.adjust` raises TypeError unless the literal is an int, str, float or None
+    (None is JSON null, a legal enum member) -/
+def enumValOk : PyVal → Bool
+  | .none => true
+  | v => enumScalar v
 
 def refTo (name : String) : PyVal := .dict [kw "$ref" (.str ("#/definitions/" ++ name))]
 
@@ -179,10 +186,27 @@ def sameSet (a b : List String) : Bool := a.all b.contains && b.all a.contains
 def collapses (c : ClassOpts) (names : List String) : Bool :=
   names.length == 1 && sameSet c.required names && !c.addl
 
-/-- the value written under `default`: an enum member by its name -/
+mutual
+/-- the value written under `default`: its JSON form, i.e. what the Serializer writes for it (an enum
+    member by its name, a set / tuple / list as an array of the elements' forms, a dict value-wise);
+    anything else (a Decimal, an instance, …) is left as it is — then the schema is not JSON -/
 def defaultJ : PyVal → PyVal
   | .enumv _ n => .str n
+  | .list xs => .list (defaultJL xs)
+  | .tuple xs => .list (defaultJL xs)
+  | .set _ xs => .list (defaultJL xs)
+  | .dict kvs => .dict (defaultJP kvs)
   | v => v
+termination_by structural v => v
+def defaultJL : List PyVal → List PyVal
+  | [] => []
+  | x :: xs => defaultJ x :: defaultJL xs
+termination_by structural xs => xs
+def defaultJP : List (PyVal × PyVal) → List (PyVal × PyVal)
+  | [] => []
+  | (k, v) :: rest => (k, defaultJ v) :: defaultJP rest
+termination_by structural kvs => kvs
+end
 
 /-- `sub_schema["default"] = default_val` -/
 def addDefault (s : PyVal) (d : Option PyVal) : PyVal :=
@@ -324,21 +348,32 @@ abbrev KeyMap := List (String × String)
 /-- `mapper[key] if key in mapper and isinstance(mapper[key], str) else key` -/
 def mapName (km : KeyMap) (n : String) : String := (lookup n km).getD n
 
-/-- `required[required.index(a)] = b` -/
-def replaceFirst (a b : String) : List String → List String
-  | [] => []
-  | x :: xs => if x == a then b :: xs else x :: replaceFirst a b xs
+/-- `declared_required.index(a)` -/
+def indexOfS (a : String) : List String → Option Nat
+  | [] => none
+  | x :: xs => if x == a then some 0 else (indexOfS a xs).map (· + 1)
 
-/-- the `required` list after `_generate_schema_for_fields_internal`: the code renames IN PLACE while
-    it walks the fields (`if key in required: required[required.index(key)] = mapped_key`), so a name
-    written for an earlier field is renamed again when a later field has that name; a field with a
-    default is appended under its mapped key -/
-def requiredM (km : KeyMap) (defaults : List (String × PyVal)) : List String → List String → List String
+/-- `required[i] = b` -/
+def setAt (b : String) : Nat → List String → List String
+  | _, [] => []
+  | 0, _ :: xs => b :: xs
+  | i + 1, x :: xs => x :: setAt b i xs
+
+/-- the walk over the fields: which entry is renamed is decided on the DECLARED names (a snapshot taken
+    before any renaming); a field with a default is appended under its mapped key -/
+def requiredMGo (km : KeyMap) (defaults : List (String × PyVal)) (declared : List String) :
+    List String → List String → List String
   | [], req => req
   | n :: ns, req =>
-    let req1 := replaceFirst n (mapName km n) req
+    let req1 := match indexOfS n declared with
+      | some i => setAt (mapName km n) i req
+      | none => req
     let req2 := if (lookup n defaults).isSome && !req1.contains (mapName km n) then req1 ++ [mapName km n] else req1
-    requiredM km defaults ns req2
+    requiredMGo km defaults declared ns req2
+
+/-- the `required` list after `_generate_schema_for_fields_internal` -/
+def requiredM (km : KeyMap) (defaults : List (String × PyVal)) (names req : List String) : List String :=
+  requiredMGo km defaults req names req
 
 /-- `properties[mapped_key] = sub_schema`, one entry per field (mapped keys that collide overwrite
     each other in the code: outside the model, the correspondence run skips such classes) -/
